@@ -11,8 +11,8 @@ Open Scope Z_scope.
 (* the obligation on the constants, for every action type *)
 Theorem action_constants_nest :
   forall a : action,
-    constants_ok (is_tx a) (validity a) (signing_end_offset a) (safety_margin a) loop_blocks
-                 (broadcast_timeout_ns a) = true.
+    constants_ok (is_tx a) (validity a) (signing_end_offset a) (safety_margin a)
+                 (signing_delay a + loop_blocks) (broadcast_timeout_ns a) = true.
 Proof. exact Proofs.C46.constants_nest. Qed.
 Print Assumptions action_constants_nest.
 
@@ -44,17 +44,19 @@ Proof. exact Proofs.C46.expiry_val. Qed.
 Print Assumptions expiry_is_start_plus_validity.
 
 (* for every action type and start block: the signing phase exists (the "invalid proposal
-   expiry block" guard does not fire), starts no earlier than the action start, ends at least
+   expiry block" guard does not fire), starts no earlier than the action start (moving funds:
+   movingFundsCommitmentConfirmationBlocks later, as execute() hands it to signTransaction), ends at least
    the documented safety margin before the expiry, and one complete retry loop of a single
    message (attempts limit x attempt maximum blocks) fits into it *)
 Theorem signing_phase_nests_in_validity_window :
   forall a start, 0 <= start -> start + validity a < two64 ->
     exists se,
       signing_end a (expiry a start) = Some se /\
-      start <= signing_start start /\ signing_start start <= se /\
+      start <= action_signing_start a start /\ action_signing_start a start <= se /\
+      action_signing_start a start = start + signing_delay a /\
       se <= expiry a start - safety_margin a /\
-      signing_start start + signingAttemptsLimit * attempt_max_blocks <= se /\
-      loop_timeout start <= se.
+      action_signing_start a start + signingAttemptsLimit * attempt_max_blocks <= se /\
+      loop_timeout (action_signing_start a start) <= se.
 Proof. exact Proofs.C46.signing_window_nests. Qed.
 Print Assumptions signing_phase_nests_in_validity_window.
 
@@ -113,3 +115,113 @@ Theorem model_heartbeat_cases_pass :
     judge (CHeartbeat start exp claims (heartbeat_model start exp claims)) = Agree.
 Proof. exact Proofs.C46.heartbeat_model_passes. Qed.
 Print Assumptions model_heartbeat_cases_pass.
+
+(* ================= the deadlines are ENFORCED (node.go withCancelOnBlock) ================= *)
+
+(* the derived context as a machine, rule of the code as written: for EVERY event history it
+   is closed exactly when a closing event (parent done, block reached, waiter error) occurred *)
+Theorem derived_context_closed_iff_closing_event :
+  forall h : list event,
+    ctx_run code_on_error CtxOpen h = CtxCancelled <->
+    exists e, In e h /\ (e = EvParentDone \/ e = EvBlockReached \/ e = EvWaiterError).
+Proof. exact Proofs.C46.ctx_closed_iff_named_event. Qed.
+Print Assumptions derived_context_closed_iff_closing_event.
+
+(* ... and no later than the FIRST of them: closed right after it, and for ever after *)
+Theorem derived_context_closed_at_first_closing_event :
+  forall s pre e post,
+    e = EvParentDone \/ e = EvBlockReached \/ e = EvWaiterError ->
+    ctx_run code_on_error s (pre ++ [e]) = CtxCancelled /\
+    ctx_run code_on_error s (pre ++ e :: post) = CtxCancelled.
+Proof. exact Proofs.C46.ctx_closed_at_first_named_event. Qed.
+Print Assumptions derived_context_closed_at_first_closing_event.
+
+Theorem derived_context_never_open_after_waiter_error :
+  forall s h, In EvWaiterError h -> ctx_run code_on_error s h = CtxCancelled.
+Proof. exact Proofs.C46.ctx_never_open_after_waiter_error. Qed.
+Print Assumptions derived_context_never_open_after_waiter_error.
+
+(* it is the fail-closed rule that carries this: a rule cancelling only after a successful wait
+   leaves the context open after a waiter error, for every history without the block / parent *)
+Theorem cancel_only_on_success_rule_refuted :
+  forall h, (forall e, In e h -> e = EvWaiterError \/ e = EvQuiet) ->
+    ctx_run false CtxOpen h = CtxOpen.
+Proof. exact Proofs.C46.lenient_rule_stays_open_after_error. Qed.
+Print Assumptions cancel_only_on_success_rule_refuted.
+
+(* in the scripted world (block clock + scripted waiter, any script): closed exactly when the
+   waiter has returned — nil or error — or the parent is done *)
+Theorem world_context_closed_iff_waiter_returned_or_parent_done :
+  forall m armed target steps,
+    let st := world_run code_on_error m armed target w_init steps in
+    is_closed (w_ctx st) = w_parent st || returned (w_ret st).
+Proof. exact Proofs.C46.world_closed_iff_event. Qed.
+Print Assumptions world_context_closed_iff_waiter_returned_or_parent_done.
+
+(* every action type, every start block, every block at which the deadline is armed, every
+   waiter that returns by the deadline block (nil at the block, or an error at any block up to
+   it), every clock script before and after: the signing context is closed once the clock shows
+   a block >= the deadline, and the deadline is <= expiry - safety margin *)
+Theorem signing_phase_ends_by_deadline_for_every_waiter :
+  forall a start armed m pre b post,
+    0 <= start -> start + validity a < two64 ->
+    exists se,
+      signing_end a (expiry a start) = Some se /\
+      se <= expiry a start - safety_margin a /\
+      (waiter_live m armed se -> se <= b ->
+       w_ctx (world_run code_on_error m armed se w_init (pre ++ [SAdvance b])) = CtxCancelled /\
+       w_ctx (world_run code_on_error m armed se w_init (pre ++ SAdvance b :: post)) = CtxCancelled).
+Proof. exact Proofs.C46.signing_phase_enforced. Qed.
+Print Assumptions signing_phase_ends_by_deadline_for_every_waiter.
+
+(* any waiter return closes the context at the block of the return (an error: fail-closed,
+   possibly before the deadline) *)
+Theorem context_closed_when_waiter_returns :
+  forall m armed target tr pre b post,
+    trigger m armed target = Some tr -> tr <= b ->
+    w_ctx (world_run code_on_error m armed target w_init (pre ++ [SAdvance b])) = CtxCancelled /\
+    w_ctx (world_run code_on_error m armed target w_init (pre ++ SAdvance b :: post)) = CtxCancelled.
+Proof. exact Proofs.C46.deadline_enforced. Qed.
+Print Assumptions context_closed_when_waiter_returns.
+
+(* a healthy waiter does not cut the phase short: open while the clock is below the deadline,
+   so the complete retry loop of a single message still fits *)
+Theorem signing_phase_not_cut_short_by_healthy_waiter :
+  forall a start armed steps,
+    0 <= start -> start + validity a < two64 ->
+    exists se,
+      signing_end a (expiry a start) = Some se /\
+      action_signing_start a start + signingAttemptsLimit * attempt_max_blocks <= se /\
+      ((forall d, In d steps -> exists b, d = SAdvance b /\ b < se) ->
+       w_ctx (world_run code_on_error WOk armed se w_init steps) = CtxOpen).
+Proof. exact Proofs.C46.signing_phase_not_cut_short. Qed.
+Print Assumptions signing_phase_not_cut_short_by_healthy_waiter.
+
+(* with the lenient rule a block counter failing while the deadline is armed leaves the
+   signing context open for every clock script: the phase is unbounded *)
+Theorem lenient_rule_unbounded_signing_phase :
+  forall armed target steps,
+    existsb is_cancel steps = false ->
+    w_ctx (world_run false (WErrAfter 0) armed target w_init (all_steps armed steps)) = CtxOpen /\
+    w_ret (world_run false (WErrAfter 0) armed target w_init (all_steps armed steps)) = RetErr.
+Proof. exact Proofs.C46.lenient_world_stays_open. Qed.
+Print Assumptions lenient_rule_unbounded_signing_phase.
+
+(* meaning of the executable form used on the observations *)
+Theorem enforce_ok_meaning :
+  forall steps obs pd,
+    enforce_ok pd steps obs = true ->
+    length obs = length steps /\
+    forall i d o, nth_error steps i = Some d -> nth_error obs i = Some o ->
+      o_closed o = (pd || existsb is_cancel (firstn (S i) steps)) || returned (o_ret o).
+Proof. exact Proofs.C46.enforce_ok_sound. Qed.
+Print Assumptions enforce_ok_meaning.
+
+(* it holds of every model output *)
+Theorem model_enforce_cases_pass :
+  forall ar armed m steps t,
+    well_formed (CEnforce ar armed m steps (armer_sign_start ar) (armer_target ar) []) = true ->
+    armer_target ar = Some t ->
+    judge (CEnforce ar armed m steps (armer_sign_start ar) (armer_target ar) (model_obs m armed t steps)) = Agree.
+Proof. exact Proofs.C46.enforce_model_passes. Qed.
+Print Assumptions model_enforce_cases_pass.
